@@ -492,3 +492,70 @@ func contains(s []int, x int) bool {
 	}
 	return false
 }
+
+// TestPropProbeTimesOut: an endpoint that was healthy and then accepts probes but never answers. The gateway's probe
+// time-out (5 s) is real time, so this runs once per check run (on the first shard only).
+func TestPropProbeTimesOut(t *testing.T) {
+	sub := stats.NewSub("probe-time-out", "one scenario per run (first shard; real time, the gateway's probe time-out is 5 s): a cluster with one endpoint that is healthy and serves, then its /healthz accepts connections and never answers; oracle: at the latest 9 s later the endpoint is not ready any more - requests get 503 and nothing is forwarded - and after it answers again it serves again; non-trivial = the scenario ran")
+	if sh, _ := stats.Shard(); sh != 0 {
+		t.Skip("runs on the first shard only")
+	}
+	g := gwbox.NewGateway()
+	defer g.Close()
+	g.SetToken("client-token", gwbox.Identity{Name: "alice"})
+	up := pool.Upstreams[3]
+	up.SetHealth(200)
+	defer up.SetHealth(200)
+	boot := gwbox.ClusterObject("hang", "gateway-secret-token")
+	boot.Spec.Servers = []proxyv1alpha1.UpstreamClusterServer{{Endpoint: "http://127.0.0.1:1"}}
+	if _, err := g.Box.Apply(boot); err != nil {
+		t.Fatalf("harness: %v", err)
+	}
+	if ci, ok := g.Box.Controller.Get("hang"); ok {
+		clusters.VerifSetHealthCheckInterval(ci, 200*time.Millisecond)
+	}
+	if _, err := g.Box.Apply(gwbox.ClusterObject("hang", "gateway-secret-token", up)); err != nil {
+		t.Fatalf("harness: %v", err)
+	}
+	if !g.WaitReady("hang", func(string) bool { return true }, 10*time.Second) {
+		sub.Inconclusive()
+		t.Skip("endpoint did not become ready")
+	}
+	sub.Eval()
+	do := func() (int, int) {
+		id := fmt.Sprintf("c03t-%d", atomic.AddInt64(&seq, 1))
+		ctx, cancel := context.WithTimeout(context.Background(), 10*time.Second)
+		defer cancel()
+		resp := g.Do(ctx, gwbox.RawRequest{Method: "GET", Target: "/api/v1/namespaces/default/pods", Host: "hang", Headers: [][2]string{{gwbox.IDHeader, id}, {"Authorization", "Bearer client-token"}}})
+		n := len(pool.Find(id))
+		pool.Forget(id)
+		return resp.Status, n
+	}
+	if st, n := do(); st != 200 || n != 1 {
+		t.Fatalf("harness: healthy endpoint does not serve (status %d, forwarded %d)", st, n)
+	}
+	up.SetHealth(-1)
+	hungAt := time.Now()
+	notReadyAfter := time.Duration(0)
+	for time.Since(hungAt) < 9*time.Second {
+		time.Sleep(250 * time.Millisecond)
+		if st, n := do(); st == 503 && n == 0 {
+			notReadyAfter = time.Since(hungAt)
+			break
+		}
+	}
+	if notReadyAfter == 0 {
+		st, n := do()
+		t.Fatalf("the endpoint's health probes have been timing out for %.1f s (it accepts them and never answers) and requests are still forwarded to it (status %d, forwarded %d); expected 503 and nothing forwarded", time.Since(hungAt).Seconds(), st, n)
+	}
+	sub.Note("not ready %.1f s after the probes started to hang", notReadyAfter.Seconds())
+	up.SetHealth(200)
+	if !g.WaitReady("hang", func(string) bool { return true }, 15*time.Second) {
+		t.Fatalf("the endpoint answers its probes again but does not become ready")
+	}
+	if st, n := do(); st != 200 || n != 1 {
+		t.Fatalf("the recovered endpoint does not serve (status %d, forwarded %d)", st, n)
+	}
+	sub.NonTrivial(1)
+	sub.Class("probe-timed-out-and-recovered")
+}
